@@ -117,8 +117,18 @@ func sanitize(s string) string {
 	return sb.String()
 }
 
+// occMarker marks a name hint that already identifies "the n-th unknown of this kind on this
+// path" (bounded equivalence runs): such a hint names its variable directly, so that two paths -
+// and the two runs - that reach the same occurrence share the variable.
+const occMarker = "_occ_"
+
 func freshVar(hint string, s Sort) *Term {
 	hint = sanitize(hint)
+	if strings.Contains(hint, occMarker) {
+		if o, ok := varDecls[hint]; !ok || o == s {
+			return mkVar(hint, s)
+		}
+	}
 	n := freshCtr[hint]
 	freshCtr[hint] = n + 1
 	name := hint
